@@ -153,7 +153,8 @@ static void STRF(substr_prep,
         abort();
     }
 
-    if (pos + *len > size) {
+    /* pos < size; comparing this way, the sum pos + *len cannot wrap */
+    if (*len > size - pos) {
         *len = size - pos;
     }
 }
